@@ -185,14 +185,12 @@ Qed.
 Lemma broken_b : forallb (fun d => forallb broken_ok (d_props d)) configs = true.
 Proof. vm_compute. reflexivity. Qed.
 
-Lemma descriptors_total : forall d p, In d configs -> In p (d_props d) -> p_kind p = PBroken ->
-  host_owned (p_owner p) (p_name p) = true /\ In (p_name p) broken_names.
+Lemma descriptors_total : forall d p, In d configs -> In p (d_props d) -> p_kind p <> PBroken.
 Proof.
   intros d p Hd Hp Hk. pose proof broken_b as H. rewrite forallb_forall in H.
   specialize (H d Hd). rewrite forallb_forall in H. specialize (H p Hp).
   unfold broken_ok in H. rewrite Hk in H. cbn [negb pkind_eqb orb] in H.
-  apply andb_prop in H. destruct H as [H1 H2]. split; [assumption|].
-  apply existsb_exists in H2. destruct H2 as (x & Hx & He). apply String.eqb_eq in He. subst. assumption.
+  apply andb_prop in H. destruct H as [_ H2]. cbn in H2. discriminate.
 Qed.
 
 Lemma links_b :
@@ -234,23 +232,19 @@ Proof.
 Qed.
 
 Lemma forin_b :
-  forallb (fun d => forallb (fun x => incl_b (forin_of d (fst x)) (snd x) &&
-                                       (mem (fst x) forin_incomplete || incl_b (snd x) (forin_of d (fst x))))
-                            forin_expect) configs = true.
+  forallb (fun d => forallb (forin_ok d) forin_expect) configs = true.
 Proof. vm_compute. reflexivity. Qed.
 
 Lemma forin_clean : forall d x, In d configs -> In x forin_expect ->
-  (forall k, In k (forin_of d (fst x)) -> In k (snd x)) /\
-  (~ In (fst x) forin_incomplete -> forall k, In k (snd x) -> In k (forin_of d (fst x))).
+  forall k, In k (forin_of d (fst x)) <-> In k (snd x).
 Proof.
   intros d x Hd Hx. pose proof forin_b as H. rewrite forallb_forall in H.
   specialize (H d Hd). rewrite forallb_forall in H. specialize (H x Hx).
-  apply andb_prop in H. destruct H as [H1 H2]. split.
-  - apply incl_b_In. exact H1.
-  - intros Hn. apply orb_prop in H2. destruct H2 as [H2|H2].
-    + apply mem_In in H2. contradiction.
-    + apply incl_b_In. exact H2.
+  apply same_set_In. exact H.
 Qed.
+
+Lemma copy_total : forall st, copy_panics_model st = copy_panics_spec st.
+Proof. reflexivity. Qed.
 
 (* every function-valued entry of ES5 15.1-15.12 / B.2 has a binding probe *)
 Definition fun_path (e : entry) : option string :=
